@@ -28,6 +28,8 @@ pub fn alphabet() -> Vec<(&'static str, Value)> {
         ("calc_syntax", call("calculate_report", json!({"transactions": "2024-02-01 SELL X"}))),
         // a failing calculation with several possible culprits (three tax years without a configured exemption)
         ("calc_unconfigured_years", call("calculate_report", json!({"transactions": "2010-01-10 BUY X 100 @ 10\n2011-06-01 SELL X 10 @ 12\n2012-06-01 SELL X 10 @ 12\n2013-06-01 SELL X 10 @ 12"}))),
+        // a valid date that is not zero-padded (the date parser accepts it; whatever the server makes of it, it answers)
+        ("explain_unpadded_date", call("explain_matching", json!({"transactions": LED, "disposal_date": "2024-2-1", "ticker": "X"}))),
         ("explain_baddate", call("explain_matching", json!({"transactions": LED, "disposal_date": "01/02/2024", "ticker": "X"}))),
         ("explain_unknown_ticker", call("explain_matching", json!({"transactions": LED2, "disposal_date": "2024-02-01", "ticker": "ZZZ"}))),
         ("badtype", call("get_fx_rate", json!({"currency": "USD", "year": "x", "month": 3}))),
